@@ -36,7 +36,15 @@ RULE = (
     "python list mixing ints (python / numpy) and strings (which the constructor turns into strings); every label the experiment "
     "reports (names 'M.<alt>[_k]', method strings, e_.rrt1.mutated, the alternatives and missing alternatives of every ranking, "
     "the labels of every mutant matrix) is compared type-preservingly (G.lab: 101 is not 101.0 and not '101') with the label the "
-    "decision matrix holds for the alternative whose row really changed.  Non-trivial: at least two mutants were evaluated or the call was (rightly) refused.  Distinct by case hash."
+    "decision matrix holds for the alternative whose row really changed.  A fourth stream, a fixed share of every run (16 quick / "
+    "160 thorough), is a HISTORY of one checker: after the matrix of the case (evaluated twice) the same checker instance evaluates "
+    "a different matrix with the same alternative and criteria labels, objectives and weights and the same reference ranking but "
+    "other values with smaller gaps between consecutively ranked alternatives (every cell times 2^-k, k = 1..4, exact, for the "
+    "scale-invariant makers; for the 'rank by the first criterion' maker, one case in four, the first column contracted towards "
+    "its minimum and every other column permuted among the alternatives and scaled), and in half of the cases the first matrix "
+    "once more; every clause of the property (one row, worsening direction, bounds = gaps of the matrix OF THAT CALL, recorded "
+    "noise, names, count, refusal) is judged for each call against the matrix of that call, the model is asked about each call, "
+    "and each later call must give the experiments of a fresh checker with an equal seed on that matrix.  Non-trivial: at least two mutants were evaluated or the call was (rightly) refused.  Distinct by case hash."
 )
 ASSUMPTIONS = [
     "Generator.uniform(0, b) == b * Generator.random() draw for draw: the draws are reproduced from numpy.random.default_rng(seed) "
@@ -230,9 +238,54 @@ def _mkdm(d):
                     alternatives=alts, criteria=list(d["criteria"]))
 
 
+def _rows_distinct(rows):
+    return len({tuple(r) for r in rows}) == len(rows)
+
+
+def _history(rng, i):
+    """one checker, several matrices: the case's matrix, then (`then`) a matrix with the same labels / objectives / weights and
+    the same reference ranking but other values and smaller gaps, then (every other case) the first matrix again"""
+    fresh = i % 4 == 3
+    c = _case(rng)
+    if c["dmaker"]["name"] == "pipe":  # the filter's threshold belongs to the first matrix only
+        c["dmaker"] = c["dmaker"]["inner"]
+    if fresh and c["dmaker"]["name"] in ("WSM", "WSMpipe"):
+        fresh = False
+    if fresh:
+        c["dmaker"] = {"name": "FirstCrit"}
+    rows = c["dm"]["matrix"]
+    n, k = len(rows), len(rows[0])
+    e = rng.randint(1, 4)
+    f = math.ldexp(1.0, -e)
+    new, how = None, "scale"
+    if fresh:
+        lo = min(r[0] for r in rows)
+        for _ in range(8):
+            perms = [None] + [rng.sample(range(n), n) for _ in range(1, k)]
+            cand = [[lo + (rows[a][0] - lo) * f] + [rows[perms[j][a]][j] * f for j in range(1, k)] for a in range(n)]
+            if _rows_distinct(cand):
+                new, how = cand, "fresh"
+                break
+    if new is None:
+        new = [[x * f for x in r] for r in rows]
+    then = [{"how": f"{how}:2^-{e}", "matrix": new}]
+    if i % 2 == 0:
+        then.append({"how": "first-matrix-again", "matrix": [list(r) for r in rows]})
+    c["kind"] = "history"
+    c["then"] = then
+    return c
+
+
+def _case_at(case, t):
+    """the case as it stands at call t + 2 of the history: same checker, the t-th later matrix"""
+    c = {k: v for k, v in case.items() if k != "then"}
+    c["dm"] = dict(case["dm"], matrix=case["then"][t]["matrix"])
+    return c
+
+
 def gen(ctx):
     rng = ctx.rng
-    n_main, n_zero, n_lab = ctx.n(110, 3000), ctx.n(10, 100), ctx.n(24, 240)
+    n_main, n_zero, n_lab, n_hist = ctx.n(110, 3000), ctx.n(10, 100), ctx.n(24, 240), ctx.n(16, 160)
     cases = [_case(rng) for _ in range(n_main)]
     # falsy / boundary forms of the seed are present in every run, whatever the stream drew
     pinned = [(0, "int"), (0, "npint"), (0, "generator"), (None, "none"), (0, "npint32"), (1, "int"), (2 ** 32 - 1, "npint")]
@@ -248,6 +301,9 @@ def gen(ctx):
         c = _relabel(rng, _case(rng), LABEL_KINDS[i % len(LABEL_KINDS)])
         c["allow"] = (i // len(LABEL_KINDS)) % 2 == 0
         cases.append(c)
+    # histories of one checker over several matrices (drawn last: the streams above are what they were)
+    for i in range(n_hist):
+        cases.append(_history(rng, i))
     return cases
 
 
@@ -382,9 +438,40 @@ def _ranks_out(rc):
     return ranks
 
 
-def _one_run(case, again=False):
+def _original(dm):
+    o = {k: (np.asarray(v, dtype=float).tolist() if k in ("matrix", "weights") else
+             [int(x) for x in v] if k == "objectives" else [str(x) for x in v])
+         for k, v in dm.to_dict().items()}
+    o["alternatives_lab"] = [G.lab(x) for x in dm.alternatives]
+    return o
+
+
+def _later_call(chk, rec, dm):
+    """one more evaluate() of a checker that has already been used, on `dm`: a run dict of that call alone"""
+    first_seen, first_ans = len(rec.seen), len(rec.answers)
+    rec.inner_error = None
+    out = {}
+    try:
+        with _alarm(ALARM_S):
+            rc = chk.evaluate(dm)
+    except _Hang:
+        out["outcome"] = "hang"
+    except Exception as e:
+        out["outcome"] = "dmaker-error" if rec.inner_error else G.err_name(e)
+        out["msg"] = str(e)[:200]
+    else:
+        out["outcome"] = "ok"
+        out["ranks"] = _ranks_out(rc)
+    out["seen"] = rec.seen[first_seen:]
+    out["answers"] = rec.answers[first_ans:]
+    out["original"] = _original(dm)
+    return out
+
+
+def _one_run(case, again=False, then=False):
     """one checker built from the case; with `again` the same checker evaluates the matrix a second time
-    (out["again"]: outcome, matrices seen and rankings of that second evaluation)"""
+    (out["again"]: outcome, matrices seen and rankings of that second evaluation); with `then` the same checker goes on
+    to evaluate the matrices of case["then"] (out["then"]: one run dict per call)"""
     import copy
 
     from skcriteria.cmp import RankInvariantChecker
@@ -427,10 +514,15 @@ def _one_run(case, again=False):
             ag["ranks"] = _ranks_out(rc2)
         ag["seen"] = rec.seen[first:]
         out["again"] = ag
-    out["original"] = {k: (np.asarray(v, dtype=float).tolist() if k in ("matrix", "weights") else
-                           [int(x) for x in v] if k == "objectives" else [str(x) for x in v])
-                       for k, v in dm.to_dict().items()}
-    out["original"]["alternatives_lab"] = [G.lab(x) for x in dm.alternatives]
+    if then and chk is not None and out["outcome"] in ("ok", "ValueError"):
+        out["then"] = []
+        for t in range(len(case["then"])):
+            run = _later_call(chk, rec, _mkdm(_case_at(case, t)["dm"]))
+            run["clone_draws"] = out.get("clone_draws")
+            out["then"].append(run)
+            if run["outcome"] == "hang":
+                break
+    out["original"] = _original(dm)
     return out
 
 
@@ -449,16 +541,23 @@ def _silence():
 
 
 def _observe_here(case):
+    then = []
     with _silence():
-        a = _one_run(case, again=True)
+        a = _one_run(case, again=True, then=bool(case.get("then")))
         b = _one_run(case) if a["outcome"] != "hang" else None
+        # every later call of the history next to a fresh checker (equal seed) on the matrix of that call
+        for t, run in enumerate(a.pop("then", [])):
+            then.append({"a": run, "b": _one_run(_case_at(case, t)) if run["outcome"] != "hang" else None})
     if case["seed_kind"] == "none":
         # nothing to reproduce the draws from but the checker's own generator (cloned before the run)
         draws = a.get("clone_draws", [])
     else:
         # the checker's random_state handling: numpy.random.default_rng(seed) (a Generator is used as it is)
         draws = [float(u) for u in np.random.default_rng(case["seed"]).random(_n_draws(case))]
-    return {"a": a, "b": b, "draws": draws}
+    obs = {"a": a, "b": b, "draws": draws}
+    if case.get("then"):
+        obs["then"] = then
+    return obs
 
 
 def _observe_in_child(case):
@@ -685,7 +784,19 @@ def _dmj(d):
             "cells": C.ratmat(d["matrix"])}
 
 
+def _calls(case, obs):
+    """the later calls of a history as (position, case of that call, observation of that call)"""
+    return [(t, _case_at(case, t), {"a": o["a"], "b": o["b"], "draws": obs["draws"]}) for t, o in enumerate(obs.get("then") or [])]
+
+
 def requests(case, obs):
+    reqs = _requests_call(case, obs)
+    for _, ct, ot in _calls(case, obs):
+        reqs += _requests_call(ct, ot)
+    return reqs
+
+
+def _requests_call(case, obs):
     a = obs["a"]
     if a["outcome"] in ("hang", "dmaker-error") or not a["answers"]:
         return []
@@ -725,6 +836,22 @@ def _first_difference(a, b):
 
 
 def judge(case, obs, replies):
+    replies = list(replies or [])
+    # (with no model at hand there are no replies at all; otherwise they come in the order of `requests`)
+    n0 = len(_requests_call(case, obs)) if replies else 0
+    out = _judge_call(case, obs, replies[:n0])
+    pos = n0
+    for t, ct, ot in _calls(case, obs):
+        nt = len(_requests_call(ct, ot)) if replies else 0
+        for f in _judge_call(ct, ot, replies[pos:pos + nt]):
+            f["what"] = (f"call {t + 2} of ONE checker, on another matrix with the same labels ({case['then'][t]['how']}), judged "
+                         f"against the matrix of that call: ") + f["what"]
+            out.append(f)
+        pos += nt
+    return out
+
+
+def _judge_call(case, obs, replies):
     out = []
 
     def prop(what, expected=None, observed=None, **kw):
@@ -875,6 +1002,9 @@ def judge(case, obs, replies):
 
 def nontrivial(case, obs):
     a = obs["a"]
+    if case.get("then"):  # a history: the first call and at least one later call on another matrix went through
+        later = [o["a"] for o in obs.get("then") or []]
+        return a["outcome"] == "ok" and len(a["seen"]) >= 3 and any(r["outcome"] == "ok" and len(r["seen"]) >= 3 for r in later)
     return (a["outcome"] == "ok" and len(a["seen"]) >= 3) or a["outcome"] == "ValueError"
 
 
@@ -895,6 +1025,12 @@ def tags(case, obs):
     if a.get("original") and a["original"].get("alternatives_lab"):
         t.append("held-labels:" + "+".join(sorted({"int" if x.startswith("int:") else "str"
                                                     for x in a["original"]["alternatives_lab"]})))
+    for i, o in enumerate(obs.get("then") or []):
+        how, r = case["then"][i]["how"].split(":")[0], o["a"]
+        t.append(f"history:call{i + 2}:{how}:{r['outcome']}")
+        if r["answers"] and a["answers"] and i == 0:
+            same = all(r["answers"][0][k] == a["answers"][0][k] for k in ("alts", "values"))
+            t.append("history:second-matrix-" + ("same" if same else "other") + "-reference-ranking")
     objs = case["dm"]["objectives"]
     t.append("objs:" + ("mixed" if len(set(objs)) > 1 else "max" if objs[0] == 1 else "min"))
     if a["answers"]:
